@@ -367,11 +367,11 @@ def family_and_call(draw):
     while call['args'] and isinstance(call['args'][-1], dict) and \
             call['args'][-1].get('skip'):
         call['args'].pop()
-    if draw(st.booleans()):
-        # declared through Python signatures and decorators instead of
-        # assembled definitions (members without such a spelling stay
-        # assembled)
-        family['decl'] = 'signature'
+    # declared through Python signatures and decorators, or as one shared
+    # callable typed per registration, instead of assembled definitions
+    # (members without such a spelling stay assembled)
+    family['decl'] = draw(st.sampled_from(['assembled', 'signature',
+                                           'shared-callable']))
     return {'kind': 'call', 'family': family, 'call': call}
 
 
